@@ -16,6 +16,8 @@ EXTENDS Props, TLC
 CONSTANTS Transitive,    \* repaired resolver: transitive Add, no re-adding (fix: C02)
           TopoSort,      \* repaired After ordering (fix: C05)
           ExitFix,       \* Exit veto in an auto transition cancels, no panic (fix: C07)
+          SelfFix,       \* a self-handler veto of an Auto state never cancels an auto
+                         \* transition, no self handler is skipped (fix: C07)
           LoopFix,       \* handler loop restarted after a panic in an Exception tx (fix: C08)
           EndFix,        \* final-phase rollback also from a failing End handler (fix: C08)
           AutoFaultFix,  \* a panic in a negotiation handler cancels a partially accepted
@@ -25,7 +27,7 @@ CONSTANTS Transitive,    \* repaired resolver: transitive Add, no re-adding (fix
           QueueLimit
 
 Fx == [transitive |-> Transitive, toposort |-> TopoSort, exitfix |-> ExitFix,
-       loopfix |-> LoopFix, endfix |-> EndFix, autofault |-> AutoFaultFix]
+       selffix |-> SelfFix, loopfix |-> LoopFix, endfix |-> EndFix, autofault |-> AutoFaultFix]
 
 TopoSet(s, i) == IF OrderedTopo THEN {TopoIndexOrder(s, i)} ELSE TopoChoices(s, i)
 
